@@ -314,6 +314,7 @@ inline void m10(const Edge& e, const Parsed&) {
 	if (!same && !(mayShrink && plan_subseq(e.post.plan, n, m.plan, m.len))) flag(C10, "iteration-differs-from-appended-sequence", e, "after the call iteration yields %d tasks, %d were appended and not removed", e.post.planlen, m.len);
 	if ((e.post.planbool != 0) != (e.post.planlen > 0)) flag(C10, "emptiness-test", e, "bool(plan)=%d with %d tasks", e.post.planbool, e.post.planlen);
 	if (e.post.planbool > 1) flag(C10, "plan-views-disagree", e, "after the call the read-only plan of the (const) machine and its mutable plan disagree (emptiness test or iteration)");
+	if (e.res.heldViewStale) flag(C10, "held-view-stale", e, "a read-only plan view obtained before the call shows something else than one obtained after it (emptiness test or iteration)");
 	if (e.post.planlen > TASK_CAP) flag(C10, "capacity-exceeded", e, "%d tasks, capacity %d", e.post.planlen, TASK_CAP);
 	if (e.post.active == NONE8 && e.post.planlen) flag(C10, "plan-survives-deactivation", e, "%d tasks on an inactive machine", e.post.planlen);
 }
@@ -353,6 +354,13 @@ inline void m12(const Edge& e, const Parsed& P) {
 		if (!ok) flag(C12, "load-lifecycle", e, "%d lifecycle callbacks for %d -> %d", P.nlife, A, want);
 		if (P.nphase || P.nout || P.nquery) flag(C12, "load-ran-other-callbacks", e, "phase/outcome callbacks during load");
 		if (!tx_empty(e.post.req)) flag(C12, "load-left-request", e, "request outstanding after load");
+#if VX_PLANS
+		{ // the loader starts from an empty plan; what its exit/enter/reenter callbacks append during load() is its plan afterwards
+			TxS ap[MAXPLAN + 1]; int na = 0; bool edited = false;
+			for (int i = 0; i < e.nev; ++i) { const Ev& v = e.tr[i]; if (v.kind == EV_MARK) break; if (v.kind == EV_PLAN_APPEND && v.r && (v.meth == M_ENTER || v.meth == M_REENTER) && na < MAXPLAN) ap[na++] = TxS{v.a, v.b, static_cast<uint8_t>(v.c ? 1 : 0), v.c}; if (v.kind == EV_PLAN_CLEAR || v.kind == EV_PLAN_REMOVE) edited = true; }
+			if (!edited && na) { bool same = e.post.planlen == na; for (int k = 0; same && k < na; ++k) same = task_eq(e.post.plan[k], ap[k]);
+				if (!same) flag(C12, "load-lost-plan-built-by-callbacks", e, "enter()/reenter() appended %d task(s) during load(), the loader's plan holds %d afterwards", na, e.post.planlen); } }
+#endif
 	}
 #else
 	(void)e; (void)P;
